@@ -90,6 +90,7 @@ theorem tfacts_ltr {s : State} {t : Tid} {e : Event} {x' : Thr} (h : LTr s t e x
   | ready r obs hl hr ho => refine tfacts_out ?_; simp [hl, Loc.c03]
   | noteSeen hl => refine tfacts_out ?_; rcases hl with hl | hl | hl <;> simp [hl, Loc.c03]
   | noteNotify hl ht => refine tfacts_out ?_; simp [hl, Loc.c03]
+  | dbgLd obs hl ho => refine tfacts_out ?_; simp; split <;> simp [Loc.c03]
   | _ => refine tfacts_out ?_; simp [Loc.c03, Thr.fresh]
 
 theorem tfacts_tr {cfg : Config} {s s' : State} {e : Event} (hf : InvF s) (h : Tr cfg s e s')
@@ -104,7 +105,7 @@ theorem tfacts_tr {cfg : Config} {s s' : State} {e : Event} (hf : InvF s) (h : T
   | acq t0 exp new obs o n hl hexp hw he ho hn hnew =>
     refine tfacts_actor (t0 := t0) (fun u hu => by rw [afterAcquire_thr_other _ _ _ _ hu]) (tfacts_out ?_) t
     rcases (afterAcquire_thr_self { s with word := n, holder := some t0 } t0 { s.thr t0 with old := o }).2.2.2.2
-      with h | h | h | h | h <;> rw [h] <;> rfl
+      with h | h | h | h | h | h <;> rw [h] <;> rfl
   | relWait t0 new obs n hl hh hnew hn hsp =>
     exact tfacts_actor (t0 := t0) (fun u hu => by simp [hu]) (tfacts_out (by simp [Loc.c03])) t
   | relWait2 t0 new obs n hl hh hnew hn hsp =>
@@ -118,6 +119,8 @@ theorem tfacts_tr {cfg : Config} {s s' : State} {e : Event} (hf : InvF s) (h : T
   | relDeq t0 new obs n hl hh hnew hn hsp =>
     exact tfacts_actor (t0 := t0) (fun u hu => by simp [hu]) (tfacts_out (by simp [Loc.c03])) t
   | relDeqW t0 new obs n hl hh hnew hn hsp =>
+    exact tfacts_actor (t0 := t0) (fun u hu => by simp [hu]) (tfacts_out (by simp [Loc.c03])) t
+  | relDbg t0 new obs n hl hh hnew hn hsp =>
     exact tfacts_actor (t0 := t0) (fun u hu => by simp [hu]) (tfacts_out (by simp [Loc.c03])) t
   | wHeadExit t0 r y hy hl hr hw =>
     subst hy
